@@ -126,7 +126,20 @@ def universe_for_run():
     fresh_tm = U.MetaHook('FreshTM', (tuple,), {})
     fresh_pm = U.MetaHook('FreshPM', (object,), {'__init__': U.PM.__init__})
     fresh_nt = type('FreshNT', (collections.namedtuple('FreshNTBase', ['p', 'q']),), {'__slots__': ()})
-    return [U.CA, CAsub, U.NTM, fresh_nt, fresh_tm, fresh_pm, U.STRUCTSEQ_TYPES[0], U.CE, list, dict, type(None), deque, MARKERS[0]] + list(SCALARS)
+    fresh_hm = U.MetaHashHook('FreshHM', (object,), {'__init__': U.PM.__init__})
+    return [U.CA, CAsub, U.NTM, fresh_nt, fresh_tm, fresh_pm, U.STRUCTSEQ_TYPES[0], U.CE, list, dict, type(None), deque, MARKERS[0]] + list(SCALARS) + [fresh_hm]
+
+
+def _called_from_optree():
+    f = sys._getframe(2)
+    for _ in range(6):
+        if f is None:
+            return False
+        fn = f.f_code.co_filename
+        if '/optree/' in fn and '/optsim/' not in fn and '/checks/' not in fn:
+            return True
+        f = f.f_back
+    return False
 
 
 def instance_of(cls):
@@ -401,6 +414,9 @@ def run_job(job, io):
                 def hook(label):
                     if label in ('cls.__repr__', 'meta.__getattr__'):
                         raise inj if label == 'cls.__repr__' else AttributeError('injected')
+                    if label == 'cls.__hash__' and _called_from_optree():
+                        probes['class-hash-raised-inside-optree'] += 1
+                        raise inj  # for the duration of this call the class is not hashable
                 U.HOOK = hook
             # ---- what does the model say will happen?
             if opk in ('register', 'register_class'):
@@ -501,7 +517,9 @@ def run_job(job, io):
                 del model.reg[(key_ns, cls)]
                 if f in all_funcs:
                     all_funcs.remove(f)
-            if expect_exc is None:
+            if fault == 'hook-raise' and raised is inj:
+                pass  # a user hook raised: the call may fail with that very exception; the registry must be untouched (checked below)
+            elif expect_exc is None:
                 viol('unexpected-failure', site, '%s(%s, namespace=%s) raised %s: %s' % (opk, getattr(cls, '__name__', cls), nsname, type(raised).__name__, raised))
             elif expect_exc == 'either' and isinstance(raised, (ValueError, TypeError)):
                 pass
@@ -541,7 +559,7 @@ def run_job(job, io):
                 oplog.append('dataclass-retry(Plain,a)->ok')
                 observe(model, types, instances, all_funcs, viol, 'dataclass:retry', probes)
             retry_cls = None
-        keys.add('%s|%s|%s|%s|%s' % (hash(model.digest(types)) & 0xffff, opk, getattr(cls, '__name__', cls) if cls in types[:16] else 'DC', fault or '-', outcome.split(':')[0]))
+        keys.add('%s|%s|%s|%s|%s' % (hash(model.digest(types)) & 0xffff, opk, getattr(cls, '__name__', cls) if cls in types[:17] else 'DC', fault or '-', outcome.split(':')[0]))
         if violations:
             break
     # ---- reversibility: unregister everything, state must equal the pristine one
